@@ -259,6 +259,12 @@ class AsyncDatagramServer(_transports.AsyncBaseTransport, Generic[_T_Request, _T
             backend = client_data.backend
             while True:
                 try:
+                    if not client_data.queue_is_empty():
+                        # Already have a datagram: always let the other tasks run between two queued datagrams
+                        # (a long backlog of one client must not keep the other clients waiting until it is exhausted).
+                        # NOTE: Before the datagram is taken from the queue and outside the timeout scope: nothing is lost if a
+                        #       cancellation is delivered here, and it must be (the queue may never be empty again).
+                        await backend.coro_yield()
                     with null_timeout_ctx if timeout is None else backend.timeout(timeout):
                         datagram = await client_data.pop_datagram()
                     action = self.__parse_datagram(datagram, self.__protocol)
@@ -386,12 +392,6 @@ class _ClientData:
         return self._datagram_queue.popleft()
 
     async def pop_datagram(self) -> bytes:
-        if self._datagram_queue:
-            # Already have a datagram: always let the other tasks run between two queued datagrams
-            # (a long backlog of one client must not keep the other clients waiting until it is exhausted).
-            datagram = self._datagram_queue.popleft()
-            await self.__backend.cancel_shielded_coro_yield()
-            return datagram
         async with (queue_condition := self._queue_condition):
             queue = self._datagram_queue
             while not queue:
